@@ -114,6 +114,7 @@ func New(opts *Options) (*NSQD, error) {
 	if err != nil {
 		return nil, fmt.Errorf("failed to lock data-path: %v", err)
 	}
+	verif.Ev("NDataLock", "now", time.Now().UnixNano())
 
 	if opts.MaxDeflateLevel < 1 || opts.MaxDeflateLevel > 9 {
 		return nil, errors.New("--max-deflate-level must be [1,9]")
@@ -498,6 +499,7 @@ func (n *NSQD) Exit() {
 	n.notifyStopped = true
 	n.notifyMtx.Unlock()
 	n.waitGroup.Wait()
+	verif.Ev("NExit", "stage", "stopped", "now", time.Now().UnixNano())
 	n.dl.Unlock()
 	n.logf(LOG_INFO, "NSQ: bye")
 	n.ctxCancel()
